@@ -164,6 +164,8 @@ pub struct Cat {
     scen_ptr: HashMap<usize, usize>,
     /// panic payload pool
     pub payloads: Vec<String>,
+    /// every event realized so far, by serial number (= its timestamp)
+    pub sent: std::cell::RefCell<Vec<AEv>>,
 }
 
 fn ptr<T>(s: &Source<T>) -> usize {
@@ -180,6 +182,7 @@ impl Cat {
             rule_ptr: HashMap::new(),
             scen_ptr: HashMap::new(),
             payloads: vec!["boom".into(), "<&>\"'".into(), "ünï".into(), String::new()],
+            sent: std::cell::RefCell::default(),
         };
         for fs in specs {
             let f = mk_feat(fs);
@@ -348,7 +351,31 @@ impl Cat {
                 )
             }
         };
-        Ok(Event::new(ev))
+        // metadata: a distinctive timestamp per realized event (serial number), remembered with the event,
+        // so that a leaf can check that the event it receives still carries the metadata it was sent with
+        let mut out = Event::new(ev);
+        let serial = self.sent.borrow().len();
+        out.at = std::time::UNIX_EPOCH + std::time::Duration::from_secs(1_000_000 + serial as u64);
+        self.sent.borrow_mut().push(e.clone());
+        Ok(out)
+    }
+
+    /// metadata check used by recording leaves: the event must carry the timestamp of an event that was
+    /// realized, and be that event (a Skipped step may have become Failed(NotFound) through `fail_on_skipped`)
+    pub fn meta_ok(&self, ev: &REv, a: &AEv) -> bool {
+        let Ok(e) = ev else { return true };
+        let Ok(d) = e.at.duration_since(std::time::UNIX_EPOCH) else { return false };
+        let Some(serial) = d.as_secs().checked_sub(1_000_000) else { return false };
+        if d.subsec_nanos() != 0 { return false; }
+        let sent = self.sent.borrow();
+        let Some(orig) = sent.get(serial as usize) else { return false };
+        if orig == a { return true; }
+        match (orig, a) {
+            (AEv::Scen(k1, r1, ASc::Bg(i1, ARes::Skipped)), AEv::Scen(k2, r2, ASc::Bg(i2, ARes::Failed(AErr::NotFound)))) |
+            (AEv::Scen(k1, r1, ASc::Step(i1, ARes::Skipped)), AEv::Scen(k2, r2, ASc::Step(i2, ARes::Failed(AErr::NotFound)))) =>
+                k1 == k2 && r1 == r2 && i1 == i2,
+            _ => false,
+        }
     }
 
     fn payload_id(&self, info: &event::Info) -> usize {
